@@ -58,15 +58,17 @@ MUTANTS = [
 ]
 
 
-def main():
-    repo = sys.argv[1] if len(sys.argv) > 1 else os.environ.get("VERIF_REPO", "/repo")
-    root = os.path.join(HERE, "..", "..")
+def probe(repo):
+    """[(mutant, verdict)]"""
     res = []
     for name, mut in MUTANTS:
         tmp = tempfile.mkdtemp(prefix="c15mut_")
         try:
             shutil.copytree(os.path.join(repo, "crates/core/src"), os.path.join(tmp, "crates/core/src"))
-            mut(tmp)
+            try:
+                mut(tmp)
+            except AssertionError as e:
+                res.append((name, "mutation no longer applies to the source: " + str(e))); continue
             try:
                 txt, _ = ext.gen(tmp)
             except ExtractError as e:
@@ -91,7 +93,12 @@ def main():
             res.append((name, verdict))
         finally:
             shutil.rmtree(tmp, ignore_errors=True)
-    for n, v in res:
+    return res
+
+
+def main():
+    repo = sys.argv[1] if len(sys.argv) > 1 else os.environ.get("VERIF_REPO", "/repo")
+    for n, v in probe(repo):
         print("%-95s %s" % (n, v))
 
 
